@@ -317,6 +317,10 @@ func c19CLI(ctx *Ctx, res *Result, in *Input, text, kind string) *Result {
 			res.Harness = err.Error()
 			return res
 		}
+		if (in.Index/3+oi)%2 == 1 && os.Geteuid() == 0 { // (as an ordinary user a read-only file simply cannot be regenerated)
+			os.Chmod(path, 0o444) // generated files are often kept read-only
+			res.Count("cli_preexisting_file_read_only", 1)
+		}
 		err := run(path)
 		after, rerr := os.ReadFile(path)
 		res.Count("cli_runs", 1)
